@@ -25,7 +25,7 @@ func init() {
 	register(&Rule{Name: "LOCK.GUARDED", Props: []string{"C19", "C11", "C12"}, Floor: 12,
 		Doc: "every access to a mutex-guarded map holds the paired mutex (exclusively for writes)",
 		Run: ruleLockGuarded})
-	register(&Rule{Name: "GLOBAL.INITONLY", Props: []string{"C19"}, Floor: 5,
+	register(&Rule{Name: "GLOBAL.INITONLY", Props: []string{"C19"}, Floor: 3,
 		Doc: "process-wide tables and everything reachable from them are written only during package initialisation",
 		Run: ruleGlobalInitOnly})
 	register(&Rule{Name: "READ.PURE", Props: []string{"C19", "C17"}, Floor: 10,
